@@ -336,6 +336,29 @@ Proof.
   rewrite E. reflexivity.
 Qed.
 
+(* -compile: whatever lies at the output path, in every mode, with or without -f: the current files
+   are compiled (current toolchain, current imported packages), nothing is run, directory and
+   cache stay as they are *)
+Lemma compile_always_current : forall st o hf uf gc, dir program st <> [] ->
+  step st (CompileOut o hf uf gc) = (st, Built program (compile (ver program st) (dep program st) (dir program st))).
+Proof.
+  intros st o hf uf gc Hd. cbn [Cache.step]. unfold invoke_compile, invoke_compile_f.
+  destruct (dir program st) eqn:Ed; [congruence|]. destruct hf, gc, o; reflexivity.
+Qed.
+
+Lemma compile_after_history : forall ops st o hf uf gc,
+  let cur := run_ops ops st in
+  dir program cur <> [] ->
+  snd (step cur (CompileOut o hf uf gc)) = Built program (compile (ver program cur) (dep program cur) (dir program cur)) /\
+  fst (step cur (CompileOut o hf uf gc)) = cur.
+Proof. intros ops st o hf uf gc cur Hd. rewrite (compile_always_current cur o hf uf gc Hd). split; reflexivity. Qed.
+
+(* a Parse that does not set Force for -compile: in hash mode an existing output file is RUN *)
+Lemma compile_without_parse_force_refuted : forall st, dir program st <> [] ->
+  invoke_compile_f program compile false st OOld true false true = RanOutput program /\
+  invoke_compile_f program compile false st OOther true false true = RanOutput program.
+Proof. intros st Hd. unfold invoke_compile_f. destruct (dir program st); [congruence|]. split; reflexivity. Qed.
+
 (* hash mode does reuse: the invocation after any invocation, with nothing changed and no -f,
    runs the same binary without compiling *)
 Lemma hash_mode_reuses : forall st hf force gc gc', dir program st <> [] ->
